@@ -44,6 +44,19 @@ fn segment(knot0: Knot, knot1: Knot) -> Segment<Poly1> {
     Segment { end, poly }
 }
 
+/// Verification hooks: expose the private kernels so that they can be compared one by one.
+#[cfg(piecewise_polynomial_verif)]
+pub mod verif_hooks_linear {
+    use crate::piecewise::Segment;
+    use crate::poly::{Knot, Poly1};
+    pub fn segment(knot0: Knot, knot1: Knot) -> Segment<Poly1> {
+        super::segment(knot0, knot1)
+    }
+    pub fn incr_linear(prev_knot: &mut Knot, current_knot: Knot) -> Segment<Poly1> {
+        super::incr_linear(prev_knot, current_knot)
+    }
+}
+
 #[cfg(test)]
 mod tests {
     use super::*;
